@@ -10,6 +10,8 @@ RULE = ("numeric arrays of 1-4 dims, sizes 1-5 on the operated axis, label kinds
         "whole array, with ties and NaNs, skipna both ways}; axis by name / position / default. class = (operation, parameters, data kind, "
         "label kind of the axis, size of the axis vs n, ndim); trivial = none")
 ANCHORS = ["transform.cumsum", "transform.cumprod", "transform.diff", "transform._append_nans", "transform.argmin", "transform.argmax"]
+# entry points the workload calls itself; the other anchors are helpers behind them (counted as evidence only)
+ANCHORS_REQUIRED = ["transform.cumsum", "transform.cumprod", "transform.diff", "transform.argmin", "transform.argmax"]
 FLOORS = {"quick": {"evaluations": 3000, "distinct": 1000, "outcome:diff-keepaxis": 200, "outcome:arg-axis": 300, "outcome:arg-whole": 200},
           "thorough": {"evaluations": 50000, "distinct": 2500}}
 
